@@ -1,4 +1,12 @@
 import PicoVerif.Model.P8scii
+import PicoVerif.Model.Sections
+import PicoVerif.Model.P8File
+import PicoVerif.Model.CartMem
+import PicoVerif.Model.Accessors
+import PicoVerif.Model.Compress
+import PicoVerif.Model.P8Png
+import PicoVerif.Spec.Stream
+import PicoVerif.Spec.Formats
 /-! Line-protocol driver over the executable models (compiled; must not import Mathlib).
 One request per line: `op arg arg ...`; one response line per request.
 Byte strings travel as lower-case hex (`-` = empty). -/
@@ -9,30 +17,168 @@ def hexVal (c : Char) : Option Nat :=
   else if 'a' ≤ c ∧ c ≤ 'f' then some (c.toNat - 87)
   else none
 
-def parseHex (s : String) : Option Bytes :=
-  if s == "-" then some [] else
-  let rec go : List Char → Option Bytes
-    | [] => some []
-    | [_] => none
-    | a :: b :: r => do
-      let x ← hexVal a; let y ← hexVal b; let t ← go r
-      pure ((x * 16 + y).toUInt8 :: t)
-  go s.toList
+def parseHexArr (s : String) : Option (Array UInt8) :=
+  if s == "-" then some #[] else Id.run do
+    let cs := s.toList.toArray
+    if cs.size % 2 ≠ 0 then return none
+    let mut out : Array UInt8 := Array.mkEmpty (cs.size / 2)
+    for i in [0:cs.size / 2] do
+      match hexVal cs[2*i]!, hexVal cs[2*i+1]! with
+      | some x, some y => out := out.push (x * 16 + y).toUInt8
+      | _, _ => return none
+    return some out
+
+def parseHex (s : String) : Option Bytes := (parseHexArr s).map (·.toList)
 
 def hexChar (n : Nat) : Char := if n < 10 then Char.ofNat (48 + n) else Char.ofNat (87 + n)
 
 def showHex (bs : Bytes) : String :=
   if bs.isEmpty then "-" else
-  String.ofList (bs.flatMap fun b => [hexChar (b.toNat / 16), hexChar (b.toNat % 16)])
+  String.ofList (bs.foldr (fun b acc => hexChar (b.toNat / 16) :: hexChar (b.toNat % 16) :: acc) [])
 
 def showNats (ns : List Nat) : String :=
   if ns.isEmpty then "-" else " ".intercalate (ns.map toString)
 
-def parseNats (ws : List String) : Option (List Nat) :=
-  ws.mapM (fun w => w.toNat?)
+def parseNats (ws : List String) : Option (List Nat) := ws.mapM (fun w => w.toNat?)
 
-def handle (line : String) : String :=
-  match (line.splitOn " ").filter (· ≠ "") with
+def showErr (e : Err) : String := "err " ++ e.name
+
+def showEx (r : Except Err Bytes) : String :=
+  match r with | .ok b => "ok " ++ showHex b | .error e => showErr e
+
+/-- rows encoded as hex strings separated by ':' (`.` = empty list of rows, `-` = an empty row) -/
+def parseRows (s : String) : Option (List Bytes) :=
+  if s == "." then some [] else (s.splitOn ":").mapM parseHex
+
+def showRows (rs : List Bytes) : String :=
+  if rs.isEmpty then "." else ":".intercalate (rs.map showHex)
+
+def optNat (s : String) : Option (Option Nat) := if s == "n" then some none else s.toNat?.map some
+def optBool (s : String) : Option (Option Bool) :=
+  if s == "n" then some none else if s == "t" then some (some true) else if s == "f" then some (some false) else none
+
+def utf8OfCps (cps : List Nat) : Bytes := (String.ofList (cps.map Char.ofNat)).toUTF8.toList
+def cpsOfUtf8 (bs : Bytes) : Option (List Nat) :=
+  (String.fromUTF8? (ByteArray.mk bs.toArray)).map fun s => s.toList.map (·.toNat)
+
+/-- checksum of the accessor state (compared with the same function over the implementation's regions) -/
+def chk (regions : List Bytes) : Nat :=
+  regions.foldl (fun h r => r.foldl (fun h b => (h * 257 + b.toNat + 1) % 1000000007) ((h * 31 + 7) % 1000000007)) 0
+
+structure St where
+  gfx : Bytes := []
+  map : Bytes := []
+  gff : Bytes := []
+  sfx : Bytes := []
+  mus : Bytes := []
+
+def St.chk (s : St) : String := toString (_root_.chk [s.gfx, s.map, s.gff, s.sfx, s.mus])
+
+def showCart (c : P8File.Cart) : String :=
+  s!"ok {c.version} {showHex c.code} {showHex c.gfx} {showHex c.gff} {showHex c.map} {showHex c.sfx} {showHex c.music} " ++
+    (match c.label with | some l => showHex l | none => "none")
+
+def parseCart (v code gfx gff map sfx mus lbl : String) : Option P8File.Cart := do
+  let version ← v.toNat?
+  let code ← parseHex code; let gfx ← parseHex gfx; let gff ← parseHex gff; let map ← parseHex map
+  let sfx ← parseHex sfx; let mus ← parseHex mus
+  let label ← (if lbl == "none" then some none else (parseHex lbl).map some)
+  pure { version, code, gfx, gff, map, sfx, music := mus, label }
+
+def rowsOfFlat (w : Nat) (flat : Bytes) : List Bytes := chunks (4 * w) flat
+
+def accStep (st : St) (ws : List String) : St × String :=
+  let bad := (st, "bad-op")
+  let fin (r : Except Err St) (res : String := "") : St × String :=
+    match r with
+    | .ok s => (s, "ok " ++ (if res == "" then "" else res ++ " ") ++ s.chk)
+    | .error e => (st, showErr e)
+  match ws with
+  | ["reset", g, m, f, s, mu] =>
+    match parseHex g, parseHex m, parseHex f, parseHex s, parseHex mu with
+    | some g, some m, some f, some s, some mu => let s' : St := ⟨g, m, f, s, mu⟩; (s', "ok " ++ s'.chk)
+    | _, _, _, _, _ => bad
+  | ["getsprite", id, tw, th] =>
+    match id.toNat?, tw.toNat?, th.toNat? with
+    | some id, some tw, some th =>
+      (st, match Acc.getSprite st.gfx id tw th with | .ok rs => "ok " ++ showRows rs | .error e => showErr e)
+    | _, _, _ => bad
+  | ["setsprite", id, xo, yo, rows] =>
+    match id.toNat?, xo.toNat?, yo.toNat?, parseRows rows with
+    | some id, some xo, some yo, some rows =>
+      fin ((Acc.setSprite st.gfx id (rows.map (·.map (·.toNat))) xo yo).map fun g => { st with gfx := g })
+    | _, _, _, _ => bad
+  | ["getcell", x, y] =>
+    match x.toNat?, y.toNat? with
+    | some x, some y => (st, match Acc.getCell ⟨st.map, st.gfx⟩ x y with | .ok v => s!"ok {v.toNat}" | .error e => showErr e)
+    | _, _ => bad
+  | ["setcell", x, y, v] =>
+    match x.toNat?, y.toNat?, v.toNat? with
+    | some x, some y, some v => fin ((Acc.setCell ⟨st.map, st.gfx⟩ x y v).map fun s => { st with map := s.map, gfx := s.gfx })
+    | _, _, _ => bad
+  | ["getrect", x, y, w, h] =>
+    match x.toNat?, y.toNat?, w.toNat?, h.toNat? with
+    | some x, some y, some w, some h =>
+      (st, match Acc.getRectTiles ⟨st.map, st.gfx⟩ x y w h with | .ok rs => "ok " ++ showRows rs | .error e => showErr e)
+    | _, _, _, _ => bad
+  | ["setrect", x, y, rows] =>
+    match x.toNat?, y.toNat?, parseRows rows with
+    | some x, some y, some rows =>
+      fin ((Acc.setRectTiles x y (rows.map (·.map (·.toNat))) 0 ⟨st.map, st.gfx⟩).map fun s => { st with map := s.map, gfx := s.gfx })
+    | _, _, _ => bad
+  | ["getflags", id, fl] =>
+    match id.toNat?, fl.toNat? with
+    | some id, some fl => (st, match Acc.getFlags st.gff id fl with | .ok v => s!"ok {v}" | .error e => showErr e)
+    | _, _ => bad
+  | [op, id, fl] =>
+    match id.toNat?, fl.toNat? with
+    | some id, some fl =>
+      if op == "setflags" then fin ((Acc.setFlags st.gff id fl).map fun g => { st with gff := g })
+      else if op == "clearflags" then fin ((Acc.clearFlags st.gff id fl).map fun g => { st with gff := g })
+      else if op == "resetflags" then fin ((Acc.resetFlags st.gff id fl).map fun g => { st with gff := g })
+      else if op == "getnote" then
+        (st, match Acc.sfxGetNote st.sfx id fl with
+             | .ok (p, w, v, e) => s!"ok {p.toNat} {w.toNat} {v.toNat} {e.toNat}" | .error e => showErr e)
+      else if op == "getchannel" then
+        (st, match Acc.musGetChannel st.mus id fl with
+             | .ok (some p) => s!"ok {p}" | .ok none => "ok n" | .error e => showErr e)
+      else bad
+    | _, _ => bad
+  | ["setnote", id, note, p, w, v, e] =>
+    match id.toNat?, note.toNat?, optNat p, optNat w, optNat v, optNat e with
+    | some id, some note, some p, some w, some v, some e =>
+      fin ((Acc.sfxSetNote st.sfx id note p w v e).map fun s => { st with sfx := s })
+    | _, _, _, _, _, _ => bad
+  | ["getprops", id] =>
+    match id.toNat? with
+    | some id => (st, match Acc.sfxGetProps st.sfx id with
+                      | .ok (a, b, c, d) => s!"ok {a.toNat} {b.toNat} {c.toNat} {d.toNat}" | .error e => showErr e)
+    | none => bad
+  | ["setprops", id, a, b, c, d] =>
+    match id.toNat?, optNat a, optNat b, optNat c, optNat d with
+    | some id, some a, some b, some c, some d => fin ((Acc.sfxSetProps st.sfx id a b c d).map fun s => { st with sfx := s })
+    | _, _, _, _, _ => bad
+  | ["setchannel", id, ch, p] =>
+    match id.toNat?, ch.toNat?, optNat p with
+    | some id, some ch, some p => fin ((Acc.musSetChannel st.mus id ch p).map fun m => { st with mus := m })
+    | _, _, _ => bad
+  | ["getmprops", id] =>
+    match id.toNat? with
+    | some id => (st, match Acc.musGetProps st.mus id with
+                      | .ok (a, b, c) => s!"ok {a} {b} {c}" | .error e => showErr e)
+    | none => bad
+  | ["setmprops", id, a, b, c] =>
+    match id.toNat?, optBool a, optBool b, optBool c with
+    | some id, some a, some b, some c => fin ((Acc.musSetProps st.mus id a b c).map fun m => { st with mus := m })
+    | _, _, _, _ => bad
+  | _ => bad
+
+def handle (st : St) (line : String) : St × String :=
+  let ws := (line.splitOn " ").filter (· ≠ "")
+  match ws with
+  | "acc" :: rest => accStep st rest
+  | _ =>
+  (st, match ws with
   | ["p2u", h] =>
     match parseHex h with
     | some bs => "ok " ++ showNats (P8scii.toUnicode Gen.p8scii bs)
@@ -44,15 +190,104 @@ def handle (line : String) : String :=
       | some r => "ok " ++ showNats r
       | none => "err key"
     | none => "bad-op"
-  | _ => "bad-op"
+  -- section codecs (lines travel concatenated)
+  | ["gfx2l", h] => (parseHex h).elim "bad-op" fun d => "ok " ++ showHex (Sections.gfxToLines d).flatten
+  | ["l2gfx", h] => (parseHex h).elim "bad-op" fun d => showEx (Sections.gfxFromLines (splitLines d))
+  | ["hex2l", n, h] =>
+    match n.toNat?, parseHex h with
+    | some n, some d => "ok " ++ showHex (Sections.hexToLines n d).flatten
+    | _, _ => "bad-op"
+  | ["l2hex", h] => (parseHex h).elim "bad-op" fun d => showEx (Sections.hexFromLines (splitLines d))
+  | ["sfx2l", h] => (parseHex h).elim "bad-op" fun d =>
+      match Sections.sfxToLines d with | some ls => "ok " ++ showHex ls.flatten | none => "err index"
+  | ["l2sfx", h] => (parseHex h).elim "bad-op" fun d => showEx (Sections.sfxFromLines (splitLines d))
+  | ["mus2l", h] => (parseHex h).elim "bad-op" fun d =>
+      match Sections.musicToLines d with | some ls => "ok " ++ showHex ls.flatten | none => "err index"
+  | ["l2mus", h] => (parseHex h).elim "bad-op" fun d => showEx (Sections.musicFromLines (splitLines d))
+  -- reference (Spec) renderings
+  | ["spec_gfx", h] => (parseHex h).elim "bad-op" fun d => "ok " ++ showHex (Spec.gfxRows d).flatten
+  | ["spec_hex", n, r, h] =>
+    match n.toNat?, r.toNat?, parseHex h with
+    | some n, some r, some d => "ok " ++ showHex (Spec.hexRows n r d).flatten
+    | _, _, _ => "bad-op"
+  | ["spec_sfx", h] => (parseHex h).elim "bad-op" fun d => "ok " ++ showHex (Spec.sfxRows d).flatten
+  | ["spec_mus", h] => (parseHex h).elim "bad-op" fun d => "ok " ++ showHex (Spec.musicRows d).flatten
+  -- .p8 file
+  | ["p8w", v, code, gfx, gff, map, sfx, mus, lbl] =>
+    match parseCart v code gfx gff map sfx mus lbl with
+    | some c => match P8File.writeP8 Gen.p8scii c with
+      | some f => "ok " ++ showHex (utf8OfCps f)
+      | none => "err index"
+    | none => "bad-op"
+  | ["p8r", h] =>
+    match parseHex h with
+    | some bs => match cpsOfUtf8 bs with
+      | some cps => match P8File.readP8 Gen.p8scii cps with
+        | .ok c => showCart c
+        | .error e => showErr e
+      | none => "err value"
+    | none => "bad-op"
+  -- cart memory
+  | ["c18", g, m, f, mu, s, d, a] =>
+    match parseHex g, parseHex m, parseHex f, parseHex mu, parseHex s, parseHex d, a.toNat? with
+    | some g, some m, some f, some mu, some s, some d, some a =>
+      match CartMem.writeCartData ⟨g, m, f, mu, s⟩ d a with
+      | .ok r => s!"ok {showHex r.gfx} {showHex r.map} {showHex r.gff} {showHex r.music} {showHex r.sfx}"
+      | .error e => showErr e
+    | _, _, _, _, _, _, _ => "bad-op"
+  -- compression
+  | ["comp", h] => (parseHex h).elim "bad-op" fun d => "ok " ++ showHex (Compress.compress d)
+  | ["decomp", h] => (parseHex h).elim "bad-op" fun d =>
+      match Compress.decompress d with
+      | .ok (n, code, sz) => s!"ok {n} {showHex code} {sz}"
+      | .error e => showErr e
+  | ["refdec", h] => (parseHex h).elim "bad-op" fun d =>
+      match Spec.refDecode d with | some r => "ok " ++ showHex r | none => "none"
+  | ["findblock", h, pos] =>
+    match parseHexArr h, pos.toNat? with
+    | some d, some p => let r := Compress.findBlock d p; s!"ok {r.1} {r.2}"
+    | _, _ => "bad-op"
+  -- .p8.png
+  | ["code2bytes", h] => (parseHex h).elim "bad-op" fun d => showEx (P8Png.getBytesFromCode d)
+  | ["bytes2code", v, h] =>
+    match v.toNat?, parseHex h with
+    | some v, some d =>
+      match P8Png.getCodeFromBytes d v with
+      | .ok (n, code, sz) => s!"ok {n} {showHex code} " ++ (match sz with | some z => toString z | none => "n")
+      | .error e => showErr e
+    | _, _ => "bad-op"
+  | ["encrows", w, lbl, pico] =>
+    match w.toNat?, parseHex lbl, parseHex pico with
+    | some w, some l, some p => "ok " ++ showHex (P8Png.encRows (rowsOfFlat w l) p).flatten
+    | _, _, _ => "bad-op"
+  | ["decrows", w, rows] =>
+    match w.toNat?, parseHex rows with
+    | some w, some r => "ok " ++ showHex (P8Png.decRows (rowsOfFlat w r))
+    | _, _ => "bad-op"
+  | ["topixels", w, lbl, v, code, gfx, gff, map, sfx, mus] =>
+    match w.toNat?, parseHex lbl, parseCart v code gfx gff map sfx mus "none" with
+    | some w, some l, some c =>
+      match P8Png.toPixels (rowsOfFlat w l) c with
+      | .ok rows => "ok " ++ showHex rows.flatten
+      | .error e => showErr e
+    | _, _, _ => "bad-op"
+  | ["frompixels", w, rows] =>
+    match w.toNat?, parseHex rows with
+    | some w, some r =>
+      match P8Png.fromPixels (rowsOfFlat w r) with
+      | .ok c => showCart c
+      | .error e => showErr e
+    | _, _ => "bad-op"
+  | _ => "bad-op")
 
-partial def loop (h : IO.FS.Stream) (out : IO.FS.Stream) : IO Unit := do
+partial def loop (h : IO.FS.Stream) (out : IO.FS.Stream) (st : St) : IO Unit := do
   let line ← h.getLine
   if line.isEmpty then return ()
-  out.putStrLn (handle (line.trimAscii.toString))
-  loop h out
+  let (st', resp) := handle st line.trimAscii.toString
+  out.putStrLn resp
+  loop h out st'
 
 def main : IO Unit := do
   let out ← IO.getStdout
-  loop (← IO.getStdin) out
+  loop (← IO.getStdin) out {}
   out.flush
